@@ -170,6 +170,8 @@ def configure_classes():
                     # loop `_vertices` is the boundary itself; faces with holes are validated by the harness only
                     alias_slots={'_vertices': '_boundary'})
     c['BooleanPoint'] = rec('V2', 'mkV2', [('x', 'v2x', Q), ('y', 'v2y', Q)], plain_attrs=True)
+    # earcut's linked-list node: the geometric predicates only read its coordinates
+    c['_Node'] = rec('V2', 'mkV2', [('x', 'v2x', Q), ('y', 'v2y', Q)], plain_attrs=True)
 
 
 # ---------------------------------------------------------------- the source
@@ -304,7 +306,8 @@ def dead_let_elim(body):
 
 COQ_RESERVED = {'at', 'in', 'as', 'fun', 'let', 'match', 'end', 'if', 'then', 'else', 'with', 'return',
                 'Type', 'Set', 'Prop', 'fix', 'for', 'forall', 'exists', 'using', 'where', 'S', 'O', 'Q', 'Z',
-                'N', 'I', 'fst', 'snd', 'length', 'map', 'rev', 'last', 'nth', 'id', 'pi', 'mod'}
+                'N', 'I', 'fst', 'snd', 'length', 'map', 'rev', 'last', 'nth', 'id', 'pi', 'mod', 'by', 'do', 'is', 'of',
+                'cofix', 'struct', 'wf', 'now', 'from', 'le', 'lt', 'max', 'min', 'sum', 'tt', 'list', 'bool', 'nat', 'option'}
 
 
 def vname(n):
